@@ -790,6 +790,17 @@ impl CompactThetaSketch {
             MAX_THETA
         };
 
+        if !(1..=63).contains(&entry_bits) {
+            return Err(Error::deserial(format!(
+                "corrupted: entry bits must be in [1, 63], got {entry_bits}"
+            )));
+        }
+        if num_entries_bytes > 4 {
+            return Err(Error::deserial(format!(
+                "corrupted: number of entries must fit in 4 bytes, got {num_entries_bytes}"
+            )));
+        }
+
         // unpack num_entries
         let mut num_entries = 0usize;
         for i in 0..num_entries_bytes {
@@ -797,6 +808,12 @@ impl CompactThetaSketch {
                 .read_u8()
                 .map_err(insufficient_data("num_entries_byte"))?;
             num_entries |= (entry_count_byte as usize) << ((i as usize) << 3);
+        }
+
+        // all deltas must be present before anything is allocated for them
+        let packed_bytes = (num_entries * entry_bits as usize).div_ceil(8);
+        if packed_bytes > cursor.remaining() {
+            return Err(Error::insufficient_data("delta_block"));
         }
 
         // unpack blocks of BLOCK_WIDTH deltas
@@ -830,7 +847,9 @@ impl CompactThetaSketch {
         // undo deltas
         let mut previous = 0;
         for e in &mut entries {
-            *e += previous;
+            *e = e.checked_add(previous).ok_or_else(|| {
+                Error::deserial("corrupted: retained hash value overflows 64 bits")
+            })?;
             previous = *e;
             if *e == 0 || *e >= theta {
                 return Err(Error::deserial("corrupted: invalid retained hash value"));
